@@ -1,5 +1,6 @@
 import YtkModel.Wire
 import YtkModel.Patch
+import YtkDriver.HeapScript
 open Lean
 
 namespace Ytk.C09
@@ -51,6 +52,9 @@ def handle : Wire.Handler := fun op a => do
     pure (Json.mkObj [("steps", .arr st.out.toArray), ("final", Wire.nodeToJson fin.1),
       ("outs", Wire.strs (fin.2.map Outcome.tag)),
       ("rfcfinal", Wire.nodeToJson finR.1), ("rfcouts", Wire.strs (finR.2.map Outcome.tag))])
+  | "heapScript" =>
+    -- a script of heap-level operations on an explicit heap (YtkDriver/HeapScript.lean)
+    HeapScript.run a
   | _ => throw s!"C09: unknown op {op}"
 
 end Ytk.C09
